@@ -4,6 +4,7 @@ package harness
 
 import (
 	"fmt"
+	"io"
 	"path/filepath"
 	"strconv"
 	"sync"
@@ -12,6 +13,7 @@ import (
 	"time"
 
 	"github.com/blevesearch/bleve/v2"
+	index "github.com/blevesearch/bleve_index_api"
 	"pgregory.net/rapid"
 )
 
@@ -38,6 +40,7 @@ type seqWriter struct {
 	acked     atomic.Int64
 	submitted atomic.Int64
 	churn     [][]Op
+	paceUS    int // pause between batches
 }
 
 func (sw *seqWriter) run(idx bleve.Index, errs chan<- error) {
@@ -63,6 +66,9 @@ func (sw *seqWriter) run(idx bleve.Index, errs chan<- error) {
 			return
 		}
 		sw.acked.Store(int64(j))
+		if sw.paceUS > 0 {
+			time.Sleep(time.Duration(sw.paceUS) * time.Microsecond)
+		}
 	}
 	errs <- nil
 }
@@ -118,11 +124,38 @@ func checkWriterPrefix(idx bleve.Index, w int) (int, string) {
 	return p, ""
 }
 
+var c14Events = map[string]string{"persist": "intro.persist.afterSwap", "merge": "intro.merge.afterSwap", "purge": "purge.end"}
+
+// slowDirectory holds back the creation of every destination file: for a fixed time, or until
+// a number of background events (persist or merge introductions, purge passes) has happened
+// since the previous file (capped, because the index may have gone quiet).
+type slowDirectory struct {
+	index.Directory
+	d     time.Duration
+	event string
+	n     int
+}
+
+func (s slowDirectory) GetWriter(filePath string) (io.WriteCloser, error) {
+	if s.event != "" {
+		start := HookCounts()[s.event]
+		deadline := time.Now().Add(150 * time.Millisecond)
+		for HookCounts()[s.event] < start+s.n && time.Now().Before(deadline) {
+			time.Sleep(200 * time.Microsecond)
+		}
+	}
+	time.Sleep(s.d)
+	return s.Directory.GetWriter(filePath)
+}
+
+const c14Rule = "rapid: 1-3 concurrent writers on a scorch disk index (each batch rewrites the writer's four documents with n=j and sets its internal key to j, plus churn on shared ids), drawn persister/merge options, numSnapshotsToKeep=1, seeded delay plan at lock-free hook points; 1-3 CopyTo calls started at generated moments (after the k-th ack of a writer or a delay), into a FileSystemDirectory or a wrapper of it that holds back every destination file by a drawn 0.1-30 ms and/or until 1-2 further persist introductions, merge introductions or purge passes happened (150 ms cap), copies optionally started after the n-th persist/merge/purge, writers optionally paced, so that the copy stays open across persists, merges, purges and other backups; " +
+	"oracle per copy: CopyTo returns nil, bleve.Open(dst) succeeds, for every writer the copy holds exactly one batch p_w (internal key, all four documents and a search agree: no torn batch) with ack_w(at copy start) <= p_w <= submitted_w(at copy end), the copy accepts a write and reopens; the source ends equal to the model of the whole history; " +
+	"non-trivial = a persist, merge introduction or purge happened between copy start and end and >=1 batch was acknowledged during the copy" +
+	"; phased mode: one generated sequence of 4-24 operations (batch, hold/release the persister at persist.begin, settle = wait until persisted and a purge pass ran, forced merge, start a backup = CopyTo takes its reader and blocks at its first destination file, finish a chosen open backup) with up to 3 open backups, same oracle per backup; there non-trivial = >=1 backup, >=1 batch and a forced merge or settle in the sequence; life-cycle mode: a fixed walk [p0 batch(es) X while the persister is parked, p1 one persister round, p2 batch Y, p3 settle, p4 forced merge, p5 settle, p6 batch Z + settle, p7] with 1-3 backups that take their reader at a drawn boundary and copy at a drawn later boundary (persister parked at persist.afterNotifyWaiters or persist.begin, drawn merge/persist options, numSnapshotsToKeep 1-2), same oracle; there non-trivial = a backup stays open across >=3 steps"
+
 func TestC14Backup(t *testing.T) {
 	ev := Ev("C14")
-	ev.SetRule("rapid: 1-3 concurrent writers on a scorch disk index (each batch rewrites the writer's four documents with n=j and sets its internal key to j, plus churn on shared ids), drawn persister/merge options, numSnapshotsToKeep=1, seeded delay plan at lock-free hook points; 1-3 CopyTo(FileSystemDirectory) calls started at generated moments (after the k-th ack of a writer or a delay); " +
-		"oracle per copy: CopyTo returns nil, bleve.Open(dst) succeeds, for every writer the copy holds exactly one batch p_w (internal key, all four documents and a search agree: no torn batch) with ack_w(at copy start) <= p_w <= submitted_w(at copy end), the copy accepts a write and reopens; the source ends equal to the model of the whole history; " +
-		"non-trivial = a persist, merge introduction or purge happened between copy start and end and >=1 batch was acknowledged during the copy")
+	ev.SetRule(c14Rule)
 	checkPropN(t, "C14", 30, func(t *rapid.T) {
 		cfg := genC03Config(t)
 		cfg.KeepSnapshots = 1
@@ -130,6 +163,9 @@ func TestC14Backup(t *testing.T) {
 		var writers []*seqWriter
 		for w := 0; w < nw; w++ {
 			sw := &seqWriter{w: w, nbatches: rapid.IntRange(8, 40).Draw(t, "nbatches")}
+			if rapid.Bool().Draw(t, "paced") {
+				sw.paceUS = rapid.IntRange(100, 3000).Draw(t, "paceUS")
+			}
 			for j := 0; j < sw.nbatches; j++ {
 				var churn []Op
 				for k, n := 0, rapid.IntRange(0, 2).Draw(t, "nchurn"); k < n; k++ {
@@ -146,12 +182,31 @@ func TestC14Backup(t *testing.T) {
 		}
 		ncopies := rapid.IntRange(1, 3).Draw(t, "ncopies")
 		type copyPlan struct {
-			AfterAck int `json:"after_ack"` // of writer 0
-			DelayUS  int `json:"delay_us"`
+			AfterAck    int    `json:"after_ack"` // of writer 0
+			DelayUS     int    `json:"delay_us"`
+			FileDelayUS int    `json:"file_delay_us"`         // the destination directory is this slow per file
+			StartEvent  string `json:"start_event,omitempty"` // start after StartCount persists / merges / purges instead
+			StartCount  int    `json:"start_count,omitempty"`
+			HoldEvent   string `json:"hold_event,omitempty"` // every destination file waits for HoldCount such events
+			HoldCount   int    `json:"hold_count,omitempty"`
 		}
 		var plans []copyPlan
 		for i := 0; i < ncopies; i++ {
-			plans = append(plans, copyPlan{AfterAck: rapid.IntRange(0, writers[0].nbatches).Draw(t, "afterAck"), DelayUS: rapid.IntRange(0, 3000).Draw(t, "delayUS")})
+			pl := copyPlan{AfterAck: rapid.IntRange(0, writers[0].nbatches).Draw(t, "afterAck"), DelayUS: rapid.IntRange(0, 3000).Draw(t, "delayUS")}
+			if rapid.Bool().Draw(t, "slowdst") {
+				// a slow destination keeps the copy open across persists, merges, purges and
+				// other, faster, backups
+				pl.FileDelayUS = rapid.IntRange(100, 30000).Draw(t, "fileDelayUS")
+			}
+			if rapid.IntRange(0, 2).Draw(t, "startOnEvent") == 0 {
+				pl.StartEvent = rapid.SampledFrom([]string{"persist", "merge", "purge"}).Draw(t, "startEvent")
+				pl.StartCount = rapid.IntRange(1, 6).Draw(t, "startCount")
+			}
+			if rapid.IntRange(0, 2).Draw(t, "holdOnEvent") == 0 {
+				pl.HoldEvent = rapid.SampledFrom([]string{"persist", "merge", "purge", "purge"}).Draw(t, "holdEvent")
+				pl.HoldCount = rapid.IntRange(1, 2).Draw(t, "holdCount")
+			}
+			plans = append(plans, pl)
 		}
 		seed := rapid.Uint64().Draw(t, "delaySeed")
 		dir := TempDir(t)
@@ -180,6 +235,8 @@ func TestC14Backup(t *testing.T) {
 			submitEnd  []int64
 			background int
 			err        error
+			startedAt  time.Time
+			endedAt    time.Time
 		}
 		results := make([]*copyResult, ncopies)
 		var cwg sync.WaitGroup
@@ -188,16 +245,36 @@ func TestC14Backup(t *testing.T) {
 			go func(ci int, pl copyPlan) {
 				defer cwg.Done()
 				deadline := time.Now().Add(60 * time.Second)
-				for writers[0].acked.Load() < int64(pl.AfterAck) && time.Now().Before(deadline) {
-					time.Sleep(200 * time.Microsecond)
+				if pl.StartEvent != "" {
+					allDone := func() bool {
+						for _, sw := range writers {
+							if sw.acked.Load() < int64(sw.nbatches) {
+								return false
+							}
+						}
+						return true
+					}
+					for HookCounts()[c14Events[pl.StartEvent]] < pl.StartCount && !allDone() && time.Now().Before(deadline) {
+						time.Sleep(200 * time.Microsecond)
+					}
+				} else {
+					for writers[0].acked.Load() < int64(pl.AfterAck) && time.Now().Before(deadline) {
+						time.Sleep(200 * time.Microsecond)
+					}
 				}
 				time.Sleep(time.Duration(pl.DelayUS) * time.Microsecond)
 				r := &copyResult{dst: filepath.Join(dir, fmt.Sprintf("copy%d", ci))}
 				before := HookCounts()
+				r.startedAt = time.Now()
 				for _, sw := range writers {
 					r.ackStart = append(r.ackStart, sw.acked.Load())
 				}
-				r.err = idx.(bleve.IndexCopyable).CopyTo(bleve.FileSystemDirectory(r.dst))
+				var dst index.Directory = bleve.FileSystemDirectory(r.dst)
+				if pl.FileDelayUS > 0 || pl.HoldEvent != "" {
+					dst = slowDirectory{dst, time.Duration(pl.FileDelayUS) * time.Microsecond, c14Events[pl.HoldEvent], pl.HoldCount}
+				}
+				r.err = idx.(bleve.IndexCopyable).CopyTo(dst)
+				r.endedAt = time.Now()
 				for _, sw := range writers {
 					r.submitEnd = append(r.submitEnd, sw.submitted.Load())
 				}
@@ -265,7 +342,23 @@ func TestC14Backup(t *testing.T) {
 			nt := r.background >= 1 && ackedDuring
 			canon := map[string]interface{}{"cfg": cfg, "writers": nw, "plans": plans, "seed": seed, "copy": ci, "nb": writers[0].nbatches}
 			smp := map[string]interface{}{"cfg": cfg, "writers": nw, "copy_plan": plans[ci], "acked_at_start": r.ackStart, "submitted_at_end": r.submitEnd, "background_steps_during_copy": r.background}
-			ev.Case(nt, canon, smp, fmt.Sprintf("writers:%d", nw))
+			cl := []string{fmt.Sprintf("writers:%d", nw)}
+			if plans[ci].FileDelayUS > 0 {
+				cl = append(cl, "slow-destination")
+			}
+			if plans[ci].HoldEvent != "" {
+				cl = append(cl, "destination-waits-for-"+plans[ci].HoldEvent)
+			}
+			if plans[ci].StartEvent != "" {
+				cl = append(cl, "started-after-a-"+plans[ci].StartEvent)
+			}
+			for cj, o := range results {
+				if cj != ci && o.startedAt.Before(r.startedAt) && o.endedAt.After(r.startedAt) && o.endedAt.Before(r.endedAt) {
+					cl = append(cl, "another-backup-started-earlier-and-ended-during-this-one")
+					break
+				}
+			}
+			ev.Case(nt, canon, smp, cl...)
 		}
 		// the source is unaffected
 		for w, sw := range writers {
